@@ -41,7 +41,7 @@ REPLAYS_PER_LABEL = 2
 # sign bits fork here (few symbolic coefficients per region): values stay linear and queries trivial
 IFCONV = ["write_bit"]
 
-QUICK_FIXTURES = ["hq_min", "hq_frag", "ld_min", "ld_frag", "hq_fields", "hq_asym", "hq_padaux_payload", "hq_2headers", "hq_lossless", "two_sequences", "hq_tiny_lossless", "hq_v3_pics"]
+QUICK_FIXTURES = ["hq_min", "hq_frag", "ld_min", "ld_frag", "hq_fields", "hq_asym", "hq_padaux_payload", "hq_2headers", "hq_lossless", "two_sequences", "hq_tiny_lossless", "hq_v3_pics", "hq_asym_then_sym"]
 
 
 def _regions(name, meta, tier, rnd):
